@@ -108,6 +108,16 @@ Theorem hit_implies_same_question_msg_chase :
 Proof. exact msg_chase_sound. Qed.
 Print Assumptions hit_implies_same_question_msg_chase.
 
+(* the chase's gates: every composed segment is a plain NOERROR body (no authority / additional
+   records, re-encodable answer types only); all but the last lack the requested type, the last has it *)
+Theorem chase_composes_plain_segments_only :
+  forall (K : Type) (K_eqb : K -> K -> bool) (H : bytes -> K) (s : store K) fuel reqw qtype qclass cd e l,
+    wire_chase K K_eqb H s fuel reqw qtype qclass cd e = Some l ->
+    Forall (fun x => e_plain x = true) l /\
+    exists pre lst, l = pre ++ [lst] /\ e_has_qtype lst = true /\ Forall (fun x => e_has_qtype x = false) pre.
+Proof. exact wire_chase_plain. Qed.
+Print Assumptions chase_composes_plain_segments_only.
+
 (* failure lookups: exact question + CD + normalised scope, or an ancestor-or-self zone of the same class *)
 Theorem hit_implies_same_question_failure :
   forall (K : Type) (K_eqb : K -> K -> bool) (H : bytes -> K) (salt_fq salt_fz : K -> K) (s : store K) q cd p fe,
@@ -171,10 +181,10 @@ Print Assumptions cut_hit_only_without_cd_and_ecs.
 
 (* a refresh that replaces an entry inherits that entry's CD partition and ECS scope *)
 Theorem replace_inherits_partition :
-  forall (K : Type) (K_eqb : K -> K -> bool) (s s' : store K) k expected rq id alias,
-    replace_if_current K K_eqb k expected rq id alias s = (s', true) ->
+  forall (K : Type) (K_eqb : K -> K -> bool) (s s' : store K) k expected rq id alias hasq plain,
+    replace_if_current K K_eqb k expected rq id alias hasq plain s = (s', true) ->
     exists cur, kget K K_eqb k (st_pos K s) = Some cur /\ entry_same cur expected = true /\
-      st_pos K s' = kset K K_eqb k (mk_entry rq (e_cd expected) (e_scope expected) id alias) (st_pos K s) /\
+      st_pos K s' = kset K K_eqb k (mk_entry rq (e_cd expected) (e_scope expected) id alias hasq plain) (st_pos K s) /\
       st_neg K s' = st_neg K s /\ st_fail K s' = st_fail K s.
 Proof. exact replace_inherits_partition_lemma. Qed.
 Print Assumptions replace_inherits_partition.
